@@ -264,7 +264,7 @@ def parse_tla_value(text):
 
 
 # ---------------------------------------------------------------------------------------------- trace validation
-def _validate_shard(module, path, timeout, heap, extra_env, stateful=False):
+def _validate_shard(module, path, timeout, heap, extra_env, stateful=False, cfg=None):
     """Validate one ndjson file of cases with spec/<module>.tla.  A case on which the specification cannot be
     evaluated (TLC evaluation error) is reported as a rejection of that case and the remainder is still examined."""
     with open(path) as f:
@@ -282,7 +282,7 @@ def _validate_shard(module, path, timeout, heap, extra_env, stateful=False):
         guard += 1
         env = {'TRACE_FILE': cur}
         env.update(extra_env or {})
-        r = run_tlc(module, cfg=module + '.cfg', env=env, workers=1, timeout=timeout, heap=heap)
+        r = run_tlc(module, cfg=cfg or (module + '.cfg'), env=env, workers=1, timeout=timeout, heap=heap)
         wall += r['wall_s']
         generated += r['generated']
         distinct += r['distinct']
@@ -355,7 +355,7 @@ def _validate_shard(module, path, timeout, heap, extra_env, stateful=False):
             'generated': generated, 'distinct': distinct, 'wall_s': wall}
 
 
-def validate_cases(module, cases, shards=16, timeout=900, heap='2g', extra_env=None, keep_dir=None, group=None):
+def validate_cases(module, cases, shards=16, timeout=900, heap='2g', extra_env=None, keep_dir=None, group=None, cfg=None):
     """cases: list of dicts (already restricted to ints / strings / bools / lists / dicts, see jsonsafe).
     Splits over <= shards JVMs.  Returns merged result."""
     from .jsonsafe import dumps
@@ -387,7 +387,7 @@ def validate_cases(module, cases, shards=16, timeout=900, heap='2g', extra_env=N
             paths.append(p)
         merged = {'cases': 0, 'rejects': [], 'skips': [], 'known': [], 'infos': [], 'generated': 0, 'distinct': 0, 'wall_s': 0.0}
         with cf.ThreadPoolExecutor(max_workers=k) as ex:
-            futs = [ex.submit(_validate_shard, module, p, timeout, heap, extra_env, bool(group)) for p in paths]
+            futs = [ex.submit(_validate_shard, module, p, timeout, heap, extra_env, bool(group), cfg) for p in paths]
             for fu in futs:
                 r = fu.result()
                 for key in ('cases', 'generated', 'distinct'):
